@@ -12,6 +12,20 @@ import ec2 as R2
 PROP = 'C06'
 CFGS = ('rel', 'w32')
 
+# ------------------------------------------------------------------------------------------------ guarded stacks
+# Every scratch stack handed to the library is a block whose first `deep` octets are the stack (exactly xxx_deep octets, as the
+# headers promise is enough) followed by GUARD octets of a fixed pattern that the library must never touch: a write past the
+# documented depth is detected deterministically even without a sanitizer.
+GUARD = 64
+GPAT = b'\xA5' * GUARD
+def gbuf(T, deep):
+    return T.buf(deep + GUARD, 0xA5)
+def gbad(buf):
+    if buf is None or buf.get(GUARD, buf.n - GUARD) == GPAT:
+        return False
+    buf.set(GPAT, buf.n - GUARD)
+    return True
+
 # ------------------------------------------------------------------------------------------------ context
 OPS = {'add': (0, 'pp'), 'sub': (1, 'pp'), 'adda': (2, 'pa'), 'suba': (3, 'pa'), 'neg': (4, 'p'), 'dbl': (5, 'p'),
        'tpl': (6, 'p'), 'froma': (7, 'a'), 'dbla': (8, 'a'), 'toa': (9, 'p'), 'addaa': (10, 'aa'), 'subaa': (10, 'aa'),
@@ -54,14 +68,18 @@ class Ctx:
             s.size = p
             no = (p.bit_length() + 7) // 8
             s.f = A.buf(L.sz('gfpCreate_keep', no), 0)
-            st = A.buf(L.sz('gfpCreate_deep', no))
+            st = gbuf(A, L.sz('gfpCreate_deep', no))
             if not L.boolean('gfpCreate', s.f, A.buf(p.to_bytes(no, 'little')), no, st):
                 raise RuntimeError('gfpCreate failed for %x' % p)
+            if gbad(st):
+                raise RuntimeError('gfpCreate wrote past gfpCreate_deep(%d) octets of its stack' % no)
             s._qinfo()
             s.ec = A.buf(L.sz('ecpCreateJ_keep', s.n), 0)
-            st = A.buf(L.sz('ecpCreateJ_deep', s.n, s.fdeep))
+            st = gbuf(A, L.sz('ecpCreateJ_deep', s.n, s.fdeep))
             if not L.boolean('ecpCreateJ', s.ec, s.f, A.buf(a.to_bytes(s.no, 'little')), A.buf(b.to_bytes(s.no, 'little')), st):
                 raise RuntimeError('ecpCreateJ failed')
+            if gbad(st):
+                raise RuntimeError('ecpCreateJ wrote past ecpCreateJ_deep octets of its stack')
             s.E = RP.Curve(p, a, b)
             s.fn = {'addaa': L.addr('ecpAddAA'), 'subaa': L.addr('ecpSubAA'), 'nega': L.addr('ecpNegA'), 'ison': L.addr('ecpIsOnA')}
             s.deepfn = {'addaa': 'ecpAddAA_deep', 'subaa': 'ecpSubAA_deep', 'ison': 'ecpIsOnA_deep'}
@@ -71,14 +89,16 @@ class Ctx:
             m = poly[0]
             s.size = 1 << m
             s.f = A.buf(L.sz('gf2Create_keep', m), 0)
-            st = A.buf(L.sz('gf2Create_deep', m))
+            st = gbuf(A, L.sz('gf2Create_deep', m))
             if not L.boolean('gf2Create', s.f, A.buf(struct.pack('<4Q', *poly)), st):
                 raise RuntimeError('gf2Create failed for %r' % (poly,))
             s._qinfo()
             s.ec = A.buf(L.sz('ec2CreateLD_keep', s.n), 0)
-            st = A.buf(L.sz('ec2CreateLD_deep', s.n, s.fdeep))
+            st = gbuf(A, L.sz('ec2CreateLD_deep', s.n, s.fdeep))
             if not L.boolean('ec2CreateLD', s.ec, s.f, A.buf(a.to_bytes(s.no, 'little')), A.buf(b.to_bytes(s.no, 'little')), st):
                 raise RuntimeError('ec2CreateLD failed')
+            if gbad(st):
+                raise RuntimeError('ec2CreateLD wrote past ec2CreateLD_deep octets of its stack')
             s.F = field2(poly)
             s.E = R2.Curve2(s.F, a, b)
             s.fn = {'addaa': L.addr('ec2AddAA'), 'subaa': L.addr('ec2SubAA'), 'nega': L.addr('ec2NegA'), 'ison': L.addr('ec2IsOnA')}
@@ -88,8 +108,8 @@ class Ctx:
         v = struct.unpack('<16Q', info.get())
         assert v[0] == s.n and v[13] == s.W and v[3] == 3, v
         s.ecdeep, s.has_tpl = v[4], bool(v[5])
-        s.stack = A.buf(s.ecdeep)          # exactly ec->deep octets for the function table
-        s.fstack = A.buf(s.fdeep)
+        s.stack = gbuf(A, s.ecdeep)          # exactly ec->deep octets for the function table (+ guard)
+        s.fstack = gbuf(A, s.fdeep)
         s.ecache = {}
         s.rcache = {}
         s.reccache = {}
@@ -117,6 +137,8 @@ class Ctx:
             ok = s.L.sz('vh_c06_from', dst, src, len(vals), s.f, s.fstack)
             if ok != len(vals):
                 raise RuntimeError('qrFrom rejected %d of %d field elements' % (len(vals) - ok, len(vals)))
+            if gbad(s.fstack):
+                raise RuntimeError('qrFrom wrote past f->deep = %d octets of its stack' % s.fdeep)
             return dst.get()
 
     def to_ints(s, raw):
@@ -256,7 +278,7 @@ def run_pairs(c, op, alias, la, lb, ptsA, ptsB, exp_row, max_rec=40000):
         bufs = [T.buf(3 * n * W), T.buf(2 * n * W), T.buf(3 * n * W), T.buf(2 * n * W), T.buf(3 * n * W), T.buf(2 * n * W), T.buf(2 * n * W)]
         pb = T.buf(struct.pack('<7Q', *[b.addr for b in bufs]))
         if shape == 'aa':
-            stack = T.buf(L.sz(c.deepfn[op], n, c.fdeep)); fn = c.fn[op]
+            stack = gbuf(T, L.sz(c.deepfn[op], n, c.fdeep)); fn = c.fn[op]
         elif op == 'nega':
             stack = None; fn = c.fn[op]
         else:
@@ -270,6 +292,14 @@ def run_pairs(c, op, alias, la, lb, ptsA, ptsB, exp_row, max_rec=40000):
             L.call('vh_c06_block', c.ec, fn, code, alias, ra, rb, i0, i1, 0, nb, out, pb, stack, stat)
             cnt = (i1 - i0) * percall
             calls += cnt
+            if gbad(stack):
+                # locate the first call that writes past the documented stack depth
+                for i in range(i0, i1):
+                    for j in ([i] if alias == 3 else range(nb)):
+                        L.call('vh_c06_block', c.ec, fn, code, alias, ra, rb, i, i + 1, j, j + 1, out, pb, stack, stat)
+                        if gbad(stack):
+                            return calls, {'i': i, 'j': j if binary else 0, 'guard': stack.n - GUARD}
+                return calls, {'i': i0, 'j': 0, 'guard': stack.n - GUARD}
             got = out.get(cnt * rw)
             exp = []
             for i in range(i0, i1):
@@ -303,7 +333,10 @@ def pair_violation(c, op, alias, la, lb, P, Q, mm):
     key = '%s:%s:alias=%s:%s' % (c.fam, op, ALIAS_NAME[alias], rel)
     rec = {'cfg': c.cfg, 'kind': 'pair', 'spec': list(c.spec), 'op': op, 'alias': alias, 'la': la, 'lb': lb,
            'P': list(P) if P is not None else None, 'Q': list(Q) if Q is not None else None}
-    if 'modified' in mm:
+    if 'guard' in mm:
+        what = 'wrote past the documented stack depth of %d octets (%s)' % (mm['guard'], 'ec->deep' if OPS[op][1] != 'aa' else c.deepfn[op])
+        key = '%s:%s:stack-overrun' % (c.fam, op)
+    elif 'modified' in mm:
         what = 'an input operand that is not aliased with the output was modified'
         key += ':input-modified'
     elif 'froma_false' in mm:
@@ -707,11 +740,16 @@ def mw_generators(p, A, r, noncyclic):
     E = RP.Curve(p, A, 0)
     rr = r // 2 if noncyclic else r
     fac = factor(rr)
+    # group structure: cyclic of order p + 1 when (0,0) is the only 2-torsion point, else Z/2 x Z/((p+1)/2)
+    full2 = RP.legendre(-A, p) == 1
+    assert full2 or not noncyclic
+    expo = (p + 1) // 2 if full2 else p + 1
+    assert expo % rr == 0
     x = 2
     while True:
         for R in E.lift_x(x):
             assert E.mul(p + 1, R) is None, 'curve order is not p + 1'
-            P = E.mul((p + 1) // rr, R)
+            P = E.mul(expo // rr, R)
             if P is not None and point_order_from(E, P, rr, fac) == rr:
                 if not noncyclic:
                     return [P]
@@ -734,3 +772,687 @@ def mw_jobs(tier):
                 spec = ('p', p, A, 0)
                 out.append(('mw:%s:A=%s:r=%d%s' % (name, '1' if A == 1 else '-3', r, 'nc' if nc else ''), spec, ('mw', spec, (r, nc))))
     return out
+
+# ------------------------------------------------------------------------------------------------ scalar multiples
+def naf_width(bits):
+    """window width ecMulA selects for a scalar of `bits` bits (only used to label coverage and keys)"""
+    return 6 if bits >= 336 else 5 if bits >= 120 else 4 if bits >= 40 else 3
+
+def m_list(W, tier):
+    """scalar lengths in words: crosses every threshold of the width selection (w64: 1 -> 4, 2..5 -> 5, 6.. -> 6;
+    w32: 1 -> 3, 2..3 -> 4, 4..10 -> 5, 11.. -> 6)"""
+    if tier == 'thorough':
+        return list(range(1, 8)) if W == 8 else list(range(1, 13))
+    return [1, 2, 5, 6] if W == 8 else [1, 2, 3, 4, 10, 11]
+
+def scalar_set(N, m, W, layout):
+    """every k in 0..2N+2 shifted by a multiple of the group order so that the value has the wanted word layout"""
+    B = 1 << (8 * W * m)
+    if layout == 'pad':
+        J = 0                                           # high words zero
+    elif layout == 'mid':
+        J = -(-(B >> (8 * W)) // N)                     # least multiple reaching word m-1 (top word tiny)
+    elif layout == 'top':
+        J = (B - 1 - (2 * N + 2)) // N                  # values just below B^m (all-ones prefix: NAF carries out of the top)
+    else:
+        J = fint('J/%d/%d/%d' % (N, m, W), (B // 4) // N, (B // 2) // N)
+    return [k + J * N for k in range(0, 2 * N + 3)]
+
+def cycles(tab):
+    """multiples of every point as iterated sums: cyc[i] = [O, P, 2P, ...] (indices)"""
+    if 'cyc' not in tab:
+        rows = table_rows(tab)
+        cyc = []
+        for i in range(len(tab['U'])):
+            c = [0]; cur = i
+            while cur != 0:
+                c.append(cur); cur = rows[cur][i]
+            cyc.append(c)
+        tab['cyc'] = cyc
+    return tab['cyc']
+
+def rep_points(tab):
+    """indices: one point of every order, every point of order 2, the first three points"""
+    seen, out = set(), []
+    for i in range(1, len(tab['U'])):
+        o = tab['ord'][i]
+        if o not in seen or o == 2 or i <= 3:
+            seen.add(o); out.append(i)
+    return out
+
+def run_mul(c, mode, pts, scalars, m, exp):
+    """ecMulA (mode 0) / ecHasOrderA (mode 1) on every (point, scalar); exp(i, j) -> expected point / bool.
+    Returns (calls, first mismatch or None)"""
+    L, n, W = c.L, c.n, c.W
+    rw = ((2 * n + 1) if mode == 0 else 1) * W
+    with vf.Arena(L) as T:
+        deep = L.sz('ecMulA_deep' if mode == 0 else 'ecHasOrderA_deep', n, 3, c.ecdeep, m)
+        stack = gbuf(T, deep)
+        ds = T.buf(b''.join(int(k).to_bytes(m * W, 'little') for k in scalars))
+        a, d, b = T.buf(2 * n * W), T.buf(m * W), T.buf(2 * n * W)
+        nd = len(scalars)
+        chunk = max(1, 30000 // nd)
+        calls = 0
+        for i0 in range(0, len(pts), chunk):
+            sub = pts[i0:i0 + chunk]
+            pa = T.buf(c.reps(sub, 'a'))
+            out = T.buf(len(sub) * nd * rw)
+            L.call('vh_c06_mul_block', c.ec, mode, pa, len(sub), ds, nd, m, out, a, d, b, stack)
+            got = out.get()
+            calls += len(sub) * nd
+            if gbad(stack):
+                for i in range(len(sub)):
+                    for j in range(nd):
+                        L.call('vh_c06_mul_block', c.ec, mode, pa.addr + i * 2 * n * W, 1, ds.addr + j * m * W, 1, m, out, a, d, b, stack)
+                        if gbad(stack):
+                            return calls, {'i': i0 + i, 'j': j, 'guard': deep, 'want': None, 'got': None}
+                return calls, {'i': i0, 'j': 0, 'guard': deep, 'want': None, 'got': None}
+            if mode == 0:
+                ex = [exp(i0 + i, j) for i in range(len(sub)) for j in range(nd)]
+                rc = c.reccache
+                miss = set(P for P in ex if P not in rc)
+                if miss:
+                    c.elems([v for P in miss if P is not None for v in P])
+                    for P in miss:
+                        rc[P] = c.rec(P)
+                want = b''.join([rc[P] for P in ex])
+            else:
+                ex = [1 if exp(i0 + i, j) else 0 for i in range(len(sub)) for j in range(nd)]
+                want = b''.join(int(v).to_bytes(W, 'little') for v in ex)
+            if got != want:
+                k = next(t for t in range(len(ex)) if got[t * rw:(t + 1) * rw] != want[t * rw:(t + 1) * rw])
+                g = got[k * rw:(k + 1) * rw]
+                return calls, {'i': i0 + k // nd, 'j': k % nd, 'want': ex[k],
+                               'got': c.dec_rec(g) if mode == 0 else int.from_bytes(g, 'little')}
+    return calls, None
+
+def mul_violation(c, mode, P, k, m, mm):
+    fn = 'ecMulA' if mode == 0 else 'ecHasOrderA'
+    w = naf_width(8 * c.W * m)
+    if 'guard' in mm:
+        cls = 'stack-overrun'
+        what = 'wrote past the documented stack depth %s_deep = %d octets' % (fn, mm['guard'])
+    elif mode == 0:
+        cls = 'kP=O' if mm['want'] is None else 'kP!=O'
+        what = 'result %s, iterated sum gives %s' % (fmt_pt(mm['got']), fmt_pt(mm['want']))
+    else:
+        cls = 'qP=O' if mm['want'] else 'qP!=O'
+        what = 'returned %d, expected %d' % (mm['got'], mm['want'])
+    key = '%s:%s:width=%d:%s' % (c.fam, fn, w, cls)
+    rec = {'cfg': c.cfg, 'kind': 'mul', 'spec': list(c.spec), 'mode': mode, 'P': list(P), 'k': hex(k), 'm': m}
+    msg = '%s(P=%s, k=%#x in %d words (window %d)) [%s, cfg %s]: %s' % (fn, fmt_pt(P), k, m, w, spec_str(c.spec), c.cfg, what)
+    return key, rec, msg
+
+def check_single_mul(rec):
+    c = get_ctx(rec['cfg'], tspec(rec['spec']))
+    P = tuple(rec['P']); k = int(rec['k'], 16); m = rec['m']; mode = rec['mode']
+    R = c.E.mul(k, P)
+    want = R if mode == 0 else (R is None)
+    calls, mm = run_mul(c, mode, [P], [k], m, lambda i, j: want)
+    return mul_violation(c, mode, P, k, m, mm)[2] if mm else None
+
+def scalar_cell(case):
+    """ecMulA / ecHasOrderA on a closed point set: points x scalar family of one (length, layout)"""
+    c = get_ctx(case['cfg'], case['spec'])
+    tab = TABLES[case['cid']]
+    U, cyc, orders, N = tab['U'], cycles(tab), tab['ord'], tab['N']
+    m, mode = case['m'], case['mode']
+    idx = list(range(1, len(U))) if case['pts'] == 'all' else rep_points(tab)
+    pts = [U[i] for i in idx]
+    if mode == 0:
+        scalars = scalar_set(N, m, c.W, case['layout'])
+        exp = lambda i, j: U[cyc[idx[i]][scalars[j] % len(cyc[idx[i]])]]
+    else:
+        qs = sorted(set([N, N - 1, N + 1] + [o + e for o in set(orders) for e in (-1, 0, 1)] + [2 * N, 3]) - {0, -1})
+        if case['layout'] == 'pad':
+            scalars = qs
+        else:
+            J = scalar_set(N, m, c.W, case['layout'])[0]
+            scalars = [q + J for q in qs]
+        exp = lambda i, j: scalars[j] % orders[idx[i]] == 0
+    calls, mm = run_mul(c, mode, pts, scalars, m, exp)
+    viol = [mul_violation(c, mode, pts[mm['i']], scalars[mm['j']], m, mm)] if mm else []
+    return {'calls': calls, 'viol': viol, 'width': naf_width(8 * c.W * m)}
+
+def scalar_cases(cfg, cid, spec, nU, tier, W):
+    out = []
+    small = nU <= 40
+    for m in m_list(W, tier):
+        for layout in ('pad', 'mid', 'top', 'fill'):
+            allpts = small or (m == 1 and layout == 'pad' and (nU <= 300 or tier == 'thorough'))
+            out.append({'kind': 'scalar', 'cfg': cfg, 'cid': cid, 'spec': spec, 'm': m, 'layout': layout, 'mode': 0,
+                        'pts': 'all' if allpts else 'reps'})
+        for layout in ('pad', 'mid'):
+            out.append({'kind': 'scalar', 'cfg': cfg, 'cid': cid, 'spec': spec, 'm': m, 'layout': layout, 'mode': 1, 'pts': 'all' if nU <= 300 else 'reps'})
+    return out
+
+# ------------------------------------------------------------------------------------------------ ecAddMulA
+class AddMul:
+    """calls ecAddMulA(b, ec, stack, k, a1, d1, m1, ...) with exact-size buffers (varargs are passed as 64-bit ints)"""
+    def __init__(s, c):
+        s.c = c; s.T = vf.Arena(c.L); s.stacks = {}; s.abuf = {}; s.dbuf = {}
+        s.b = s.T.buf(2 * c.n * c.W)
+    def close(s):
+        s.T.__exit__()
+    def call(s, terms):
+        c = s.c; L = c.L
+        ms = tuple(t[2] for t in terms)
+        if ms not in s.stacks:
+            s.stacks[ms] = gbuf(s.T, L.sz('ecAddMulA_deep', c.n, 3, c.ecdeep, len(ms), *ms))
+        args = []
+        for slot, (P, k, m) in enumerate(terms):
+            if slot not in s.abuf:
+                s.abuf[slot] = s.T.buf(2 * c.n * c.W)
+            if (slot, m) not in s.dbuf:
+                s.dbuf[(slot, m)] = s.T.buf(m * c.W)
+            s.abuf[slot].set(c.reps([P], 'a'))
+            s.dbuf[(slot, m)].set(int(k).to_bytes(m * c.W, 'little'))
+            args += [s.abuf[slot], s.dbuf[(slot, m)], m]
+        s.b.set(b'\xEE' * s.b.n)
+        ret = L.boolean('ecAddMulA', s.b, c.ec, s.stacks[ms], len(terms), *args)
+        if gbad(s.stacks[ms]):
+            return ('stack-overrun', s.stacks[ms].n - GUARD)
+        if not ret:
+            return None
+        x, y = c.to_ints(s.b.get())
+        return (x, y)
+
+def addmul_violation(c, terms, got, want):
+    E = c.E
+    parts = [E.mul(k, P) for P, k, m in terms]
+    rel = 'k=%d' % len(terms)
+    if len(terms) == 2:
+        rel += ':' + relation(E, 'add', parts[0], parts[1])
+    elif len(terms) == 1:
+        rel += ':' + ('kP=O' if parts[0] is None else 'kP!=O')
+    else:
+        rel += ':' + ('sum=O' if want is None else 'sum!=O')
+    key = '%s:ecAddMulA:%s' % (c.fam, rel)
+    if got and got[0] == 'stack-overrun':
+        key = '%s:ecAddMulA:stack-overrun' % c.fam
+    rec = {'cfg': c.cfg, 'kind': 'addmul', 'spec': list(c.spec), 'terms': [[list(P), hex(k), m] for P, k, m in terms]}
+    msg = 'ecAddMulA(%s) [%s, cfg %s]: %s' % (
+        ' + '.join('%#x[%dw]*%s' % (k, m, fmt_pt(P)) for P, k, m in terms), spec_str(c.spec), c.cfg,
+        ('wrote past ecAddMulA_deep = %d octets of the stack' % got[1]) if got and got[0] == 'stack-overrun' else
+        'result %s, sum of the iterated multiples is %s' % (fmt_pt(got), fmt_pt(want)))
+    return key, rec, msg
+
+def check_single_addmul(rec):
+    c = get_ctx(rec['cfg'], tspec(rec['spec']))
+    terms = [(tuple(P), int(k, 16), m) for P, k, m in rec['terms']]
+    want = c.E.mul_add(*[(k, P) for P, k, m in terms])
+    am = AddMul(c)
+    try:
+        got = am.call(terms)
+    finally:
+        am.close()
+    return addmul_violation(c, terms, got, want)[2] if got != want else None
+
+def addmul_cell(case):
+    c = get_ctx(case['cfg'], case['spec'])
+    tab = TABLES[case['cid']]
+    U, cyc, rows, N = tab['U'], cycles(tab), table_rows(tab), tab['N']
+    W = c.W
+    sub = case['sub']
+    allidx = list(range(1, len(U)))
+    reps = rep_points(tab)
+    S = [0, 1, 2, 3, N - 1, N, N + 1, 2 * N, fint('s/%d' % N, 4, max(4, N - 2))]
+    ml = m_list(W, 'quick')
+    def val(s, m, lay):
+        if lay == 'pad' or m == 1 and lay != 'top':
+            return s
+        return s + scalar_set(N, m, W, lay)[0]
+    jobs = []          # iterator of term lists [(idx, scalar, m)]
+    if sub == 'k1':
+        pts = allidx if len(U) <= 300 else reps
+        jobs = ([(i, k, 1)] for i in pts for k in range(0, 2 * N + 3))
+    elif sub == 'k1m':
+        jobs = ([(i, val(s, m, lay), m)] for i in reps for m in ml for lay in ('pad', 'mid', 'top') for s in S)
+    elif sub == 'k2':
+        pts = allidx if len(U) <= 40 else reps[:8]
+        jobs = ([(i, a, 1), (j, b, 1)] for i in pts for j in pts for a in S for b in S)
+    elif sub == 'k2m':
+        pts = reps[:4]
+        mm = [(ml[x], ml[y]) for x in range(len(ml)) for y in range(len(ml)) if (x, y) != (0, 0)]
+        jobs = ([(i, val(a, m1, 'top'), m1), (j, val(b, m2, 'mid' if (m1 + m2) % 2 else 'top'), m2)]
+                for i in pts for j in pts for (m1, m2) in mm for a in S[1:] for b in S[:7])
+    elif sub == 'k3':
+        pts = reps[:4]
+        S3 = [0, 1, N - 1, N, N + 1, S[-1]]
+        m3 = [(1, 1, 1), (ml[0], ml[1], ml[-1]), (ml[-1], ml[0], ml[2])]
+        jobs = ([(i, val(a, ma, 'top'), ma), (j, val(b, mb, 'top'), mb), (l, val(d, md, 'mid'), md)]
+                for i in pts for j in pts for l in pts for (ma, mb, md) in m3 for a in S3 for b in S3 for d in S3)
+    am = AddMul(c)
+    calls, viol = 0, []
+    try:
+        for tl in jobs:
+            acc = 0
+            for i, k, m in tl:
+                cy = cyc[i]
+                acc = rows[acc][cy[k % len(cy)]]
+            want = U[acc]
+            terms = [(U[i], k, m) for i, k, m in tl]
+            got = am.call(terms)
+            calls += 1
+            if got != want:
+                v = addmul_violation(c, terms, got, want)
+                if all(v[0] != w[0] for w in viol):
+                    viol.append(v)
+                if len(viol) >= 4:
+                    break
+    finally:
+        am.close()
+    return {'calls': calls, 'viol': viol}
+
+def addmul_cases(cfg, cid, spec, nU, tier):
+    subs = ['k1', 'k1m', 'k2', 'k2m', 'k3']
+    return [{'kind': 'addmul', 'cfg': cfg, 'cid': cid, 'spec': spec, 'sub': s} for s in subs]
+
+# ------------------------------------------------------------------------------------------------ on-curve predicate
+def ison_sweep_cell(case):
+    """ecpIsOnA on ALL raw word pairs (x, y) in [0, p+1]^2 of a one-word field (raw words >= p are not field elements)"""
+    c = get_ctx(case['cfg'], case['spec'])
+    L, p = c.L, c.size
+    assert c.n == 1 and c.fam != 'ec2'
+    lim = p + 2
+    vals = c.to_ints(b''.join(int(r).to_bytes(c.W, 'little') for r in range(p)))     # value of the raw word r < p
+    E = c.E
+    sq = {}
+    for r in range(p):
+        sq.setdefault(vals[r] * vals[r] % p, []).append(r)
+    want = bytearray(lim * lim)
+    for rx in range(p):
+        for ry in sq.get(E.rhs(vals[rx]), ()):
+            want[rx * lim + ry] = 1
+    assert sum(want) == E.group_order() - 1
+    with vf.Arena(L) as T:
+        out = T.buf(lim * lim, 0xCC)
+        pt = T.buf(2 * c.W)
+        stack = gbuf(T, L.sz(c.deepfn['ison'], c.n, c.fdeep))
+        L.call('vh_c06_ison', c.ec, c.fn['ison'], 0, lim, 0, lim, out, pt, stack)
+        got = out.get()
+        if gbad(stack):
+            got = b'stack overrun'
+    viol = []
+    if got == b'stack overrun':
+        viol.append(('ecpIsOnA:stack-overrun', {'cfg': c.cfg, 'kind': 'cell', 'case': case}, 'ecpIsOnA wrote past ecpIsOnA_deep octets of its stack [%s]' % spec_str(c.spec)))
+    elif got != bytes(want):
+        k = next(t for t in range(lim * lim) if got[t] != want[t])
+        viol.append(ison_violation(c, k // lim, k % lim, got[k], want[k]))
+    return {'calls': lim * lim, 'viol': viol}
+
+def ison_violation(c, rx, ry, got, want):
+    lim = c.size
+    cls = 'x>=p' if (c.fam != 'ec2' and rx >= lim) else 'y>=p' if (c.fam != 'ec2' and ry >= lim) else \
+          'outside GF(2^m)' if (c.fam == 'ec2' and (rx >= lim or ry >= lim)) else ('on curve' if want else 'off curve')
+    fn = 'ec2IsOnA' if c.fam == 'ec2' else 'ecpIsOnA'
+    key = '%s:%s' % (fn, cls)
+    rec = {'cfg': c.cfg, 'kind': 'ison', 'spec': list(c.spec), 'rx': hex(rx), 'ry': hex(ry)}
+    msg = '%s(raw words x=%#x, y=%#x) [%s, cfg %s] returned %s, the curve equation / field membership gives %d' % (
+        fn, rx, ry, spec_str(c.spec), c.cfg, 'after writing past its documented stack depth' if got == 2 else got, want)
+    return key, rec, msg
+
+def ison_expected(c, rx, ry):
+    nb = c.n * c.W
+    if c.fam == 'ec2':
+        if rx >= c.size or ry >= c.size:
+            return 0
+    elif rx >= c.size or ry >= c.size:
+        return 0
+    x, y = c.to_ints(rx.to_bytes(nb, 'little') + ry.to_bytes(nb, 'little'))
+    return 1 if c.E.is_on((x, y)) else 0
+
+def ison_call(c, T, rx, ry):
+    nb = c.n * c.W
+    key = 'isonbuf'
+    pt = T.buf(rx.to_bytes(nb, 'little') + ry.to_bytes(nb, 'little'))
+    stack = gbuf(T, c.L.sz(c.deepfn['ison'], c.n, c.fdeep))
+    r = c.L.boolean('ec2IsOnA' if c.fam == 'ec2' else 'ecpIsOnA', pt, c.ec, stack)
+    return 2 if gbad(stack) else r
+
+def raw_of(c, v):
+    return int.from_bytes(c.elem(v), 'little')
+
+def ison_points(c, pts, extra_x=()):
+    """raw (x, y) candidates around a set of curve points: the points, neighbours, non-canonical / out-of-field words"""
+    top = 1 << (8 * c.n * c.W)
+    size = c.size
+    out = []
+    for P in pts:
+        if P is None:
+            continue
+        rx, ry = raw_of(c, P[0]), raw_of(c, P[1])
+        out += [(rx, ry), (rx, ry ^ 1), (rx ^ 1, ry), (ry, rx)]
+        for v in (rx + size, ):
+            if v < top:
+                out.append((v, ry))          # congruent to x but not a field element
+        for v in (ry + size, ):
+            if v < top:
+                out.append((rx, v))
+        out += [(top - 1, ry), (rx, top - 1)]
+        if size < top:
+            out += [(size, ry), (rx, size)]
+    return list(dict.fromkeys(out))
+
+def ison_cell(case):
+    """on-curve predicate pointwise (multi-word fields): candidates derived from the closed point set / boundary points"""
+    c = get_ctx(case['cfg'], case['spec'])
+    if 'cid' in case:
+        U = TABLES[case['cid']]['U']
+        pts = U[1:60] + U[-20:]
+    else:
+        pts = [tuple(P) for P in case['pts']]
+    cand = ison_points(c, pts)
+    if c.fam != 'ec2' and c.E.is_on((0, 0)) is False:
+        cand.append((0, 0))
+    viol, calls = [], 0
+    for rx, ry in cand:
+        want = ison_expected(c, rx, ry)
+        with vf.Arena(c.L) as T:
+            got = ison_call(c, T, rx, ry)
+        calls += 1
+        if got != want:
+            v = ison_violation(c, rx, ry, got, want)
+            if all(v[0] != w[0] for w in viol):
+                viol.append(v)
+    return {'calls': calls, 'viol': viol}
+
+def check_single_ison(rec):
+    c = get_ctx(rec['cfg'], tspec(rec['spec']))
+    rx, ry = int(rec['rx'], 16), int(rec['ry'], 16)
+    want = ison_expected(c, rx, ry)
+    with vf.Arena(c.L) as T:
+        got = ison_call(c, T, rx, ry)
+    return ison_violation(c, rx, ry, got, want)[2] if got != want else None
+
+# ------------------------------------------------------------------------------------------------ SWU
+def swu_call(c, T, s):
+    L = c.L
+    b = T.buf(2 * c.n * c.W, 0xEE)
+    a = T.buf(c.elem(s))
+    stack = gbuf(T, L.sz('ecpSWU_deep', c.n, c.fdeep))
+    L.call('ecpSWU', b, a, c.ec, stack)
+    if gbad(stack):
+        return ('stack-overrun', stack.n - GUARD)
+    x, y = c.to_ints(b.get())
+    return (x, y)
+
+def swu_check(c, s):
+    """-> violation triple or None.  Preconditions (ecp.h): s in GF(p), p = 3 mod 4, A != 0, B != 0; for a non-residue B the
+    header excepts s in {0, p-1}; s = 1 maps to the same t = -1 as p-1 and is excepted with them."""
+    E = c.E
+    want = RP.swu(E, s)
+    with vf.Arena(c.L) as T:
+        got = swu_call(c, T, s)
+    over = got[0] == 'stack-overrun'
+    if over or got != want or not E.is_on(got):
+        cls = 'stack-overrun' if over else 'boundary s' if s in (0, 1, E.p - 1) else 'generic s'
+        key = 'ecpSWU:%s' % cls
+        rec = {'cfg': c.cfg, 'kind': 'swu', 'spec': list(c.spec), 's': hex(s)}
+        if over:
+            msg = 'ecpSWU(s=%#x) [%s, cfg %s] wrote past ecpSWU_deep = %d octets of its stack' % (s, spec_str(c.spec), c.cfg, got[1])
+        else:
+            msg = 'ecpSWU(s=%#x) [%s, cfg %s] = %s, STB 34.101.66 map gives %s (on curve: %s)' % (
+                s, spec_str(c.spec), c.cfg, fmt_pt(got), fmt_pt(want), E.is_on(got))
+        return key, rec, msg
+    return None
+
+def swu_admissible(E, s):
+    if RP.legendre(E.b, E.p) != 1 and s in (0, 1, E.p - 1):
+        return False
+    return True
+
+def swu_cell(case):
+    c = get_ctx(case['cfg'], case['spec'])
+    E = c.E
+    assert E.p % 4 == 3 and E.a != 0 and E.b != 0
+    svals = range(E.p) if case['s'] == 'all' else [int(s, 16) for s in case['s']]
+    calls, viol = 0, []
+    for s in svals:
+        if not swu_admissible(E, s):
+            continue
+        v = swu_check(c, s)
+        calls += 1
+        if v and all(v[0] != w[0] for w in viol):
+            viol.append(v)
+    return {'calls': calls, 'viol': viol}
+
+def swu_curves(tier):
+    """small curves satisfying the preconditions of ecpSWU: p = 3 (mod 4), A != 0, B != 0 (both residue classes of B)"""
+    out = []
+    for p in (11, 19, 251) + ((1019,) if tier == 'thorough' else ()):
+        for a in (p - 3, 1, 2):
+            got = {1: 0, -1: 0}
+            for b in range(1, p):
+                E = RP.Curve(p, a, b)
+                lg = RP.legendre(b, p)
+                if E.is_nonsingular() and got[lg] < (2 if p < 100 or tier == 'thorough' else 1):
+                    got[lg] += 1
+                    out.append(('p', p, a, b))
+    return out
+
+# ------------------------------------------------------------------------------------------------ binary subfield curves
+EC2_FIELDS_QUICK = [((70, 5, 3, 1), 5, [(0, 1), (1, 3), (2, 5)]), ((70, 5, 3, 1), 7, [(1, 1), (2, 3)]), ((77, 6, 5, 2), 7, [(0, 3)]),
+                    ((105, 4, 0, 0), 5, [(1, 7)])]
+EC2_FIELDS_THOROUGH = EC2_FIELDS_QUICK + [((105, 4, 0, 0), 7, [(0, 1), (5, 2)]), ((110, 33, 0, 0), 5, [(0, 9), (3, 1)]),
+                                          ((77, 6, 5, 2), 11, [(1, 1)]), ((110, 33, 0, 0), 11, [(2, 7)])]
+EC2_FIELDS_W32 = [((35, 2, 0, 0), 5, [(2, 1)]), ((35, 2, 0, 0), 7, [(1, 2)])]
+EC2_FIELDS_W32_THOROUGH = [((44, 5, 0, 0), 11, [(0, 3)])]
+
+def ec2_jobs(tier):
+    """[(cid, spec, table job, cfgs)]: complete curves over GF(2^d) embedded into GF(2^m) (see module docstring)"""
+    out = []
+    both = EC2_FIELDS_QUICK if tier == 'quick' else EC2_FIELDS_THOROUGH
+    w32 = EC2_FIELDS_W32 + (EC2_FIELDS_W32_THOROUGH if tier == 'thorough' else [])
+    for lst, cfgs in ((both, CFGS), (w32, ('w32',))):
+        for poly, d, curves in lst:
+            phi = embedding(poly, d)
+            for a_s, b_s in curves:
+                spec = ('2', poly, phi[a_s], phi[b_s])
+                out.append(('sf:2^%d in 2^%d:a=%d:b=%d' % (d, poly[0], a_s, b_s), spec, ('sf', spec, (d, a_s, b_s)), cfgs))
+    return out
+
+# ------------------------------------------------------------------------------------------------ standard curves
+BIGN_NAMES = ['1.2.112.0.2.0.34.101.45.3.1', '1.2.112.0.2.0.34.101.45.3.2', '1.2.112.0.2.0.34.101.45.3.3']
+BIGN96_NAME = '1.2.112.0.2.0.34.101.45.3.0'
+
+def std_list(tier):
+    import g12s as RG, dstu as RD
+    if tier == 'quick':
+        return [('bign', BIGN_NAMES[0]), ('bign96', BIGN96_NAME), ('g12s', RG.STD_NAMES[1]), ('g12s', RG.STD_NAMES[6]),
+                ('dstu', RD.STD_NAMES[0]), ('dstu', RD.STD_NAMES[1])]
+    return [('bign', n) for n in BIGN_NAMES] + [('bign96', BIGN96_NAME)] + [('g12s', n) for n in RG.STD_NAMES] + [('dstu', n) for n in RD.STD_NAMES]
+
+def lib_params(L, fam, name):
+    """standard parameters as the LIBRARY tables give them (ints)"""
+    le = lambda b: int.from_bytes(b, 'little')
+    with vf.Arena(L) as T:
+        out = T.buf(512, 0)
+        code = L.err('vh_c06_params', {'bign': 0, 'bign96': 1, 'g12s': 2, 'dstu': 3}[fam], name.encode() + b'\0', out)
+        if code:
+            raise RuntimeError('%sParamsStd(%s) = %#x' % (fam, name, code))
+        o = out.get()
+    if fam in ('bign', 'bign96'):
+        l = le(o[:8]); no = l // 4
+        f = [le(o[8 + 64 * i:8 + 64 * i + no]) for i in range(5)]
+        return {'p': f[0], 'a': f[1], 'b': f[2], 'q': f[3], 'G': (0, f[4]), 'h': 1}
+    if fam == 'g12s':
+        l, h = le(o[:8]), le(o[8:16]); o = o[16:]
+        p = le(o[:68][:l // 8 + (4 if l == 512 else 2)]) if False else le(o[:68 * l // 512])
+        no = (p.bit_length() + 7) // 8
+        a, b = le(o[68:68 + no]), le(o[136:136 + no])
+        q = le(o[204:204 + 64 * l // 512])
+        return {'p': p, 'a': a, 'b': b, 'q': q, 'G': (le(o[268:268 + no]), le(o[336:336 + no])), 'h': h}
+    poly = struct.unpack('<4Q', o[:32]); A, h = le(o[32:40]), le(o[40:48]); o = o[48:]
+    no = (poly[0] + 7) // 8
+    G = (le(o[128:128 + no]), le(o[128 + no:128 + 2 * no]))
+    return {'poly': tuple(poly), 'a': A, 'b': le(o[:no]), 'q': le(o[64:64 + no]), 'G': G if G != (0, 0) else None, 'h': h}
+
+def ref_params(fam, name):
+    import g12s as RG, dstu as RD
+    if fam in ('bign', 'bign96'):
+        ps = [v for v in RP.STD.values() if v['oid'] == name][0]
+        return {'p': ps['p'], 'a': ps['a'], 'b': ps['b'], 'q': ps['q'], 'G': (0, ps['yG']), 'h': 1}
+    if fam == 'g12s':
+        t = RG.params_std(name)
+        return {'p': t['p'], 'a': t['a'], 'b': t['b'], 'q': t['q'], 'G': (t['xP'], t['yP']), 'h': t['n']}
+    t = RD.params_std(name)
+    return {'poly': tuple(t['p']), 'a': t['A'], 'b': t['B'], 'q': t['n'], 'G': t['P'], 'h': t['c']}
+
+def std_points(E, prm, binary):
+    """boundary points of a standard curve (reference arithmetic): G, -G, 2G, 3G, (q-1)G, points with x = 0,
+    a point outside <G> and the small-order points q*R when the cofactor is > 1"""
+    q, h, G = prm['q'], prm['h'], prm['G']
+    x = 1
+    R = None
+    while R is None:
+        x += 1
+        ls = E.lift_x(x)
+        if ls:
+            R = ls[0]
+    if G is None:                       # DSTU tables carry no base point for some curves: h * R has order q
+        G = E.mul(h, R)
+        assert G is not None and E.mul(q, G) is None
+    pts = [G, E.neg(G), E.dbl(G), E.mul(q - 1, G)]
+    if not binary:
+        pts.append(E.mul(3, G))
+    pts += E.lift_x(0)
+    if h > 1:
+        S = E.mul(q, R)
+        pts.append(R)
+        while S is not None and S not in pts:
+            pts.append(S); S = E.dbl(S)
+        if binary:
+            pts.append(E.add(G, E.lift_x(0)[0]))
+    out = []
+    for P in pts:
+        if P is not None and P not in out:
+            assert E.is_on(P)
+            out.append(P)
+    return G, out
+
+def std_cell(case):
+    """one standard curve, all configurations (the reference results are shared between them)"""
+    fam, name, tier = case['fam'], case['name'], case['tier']
+    viol, calls, parts = [], 0, {}
+    def addv(v):
+        if v and all(v[0] != w[0] for w in viol) and len(viol) < 6:
+            viol.append(v)
+    ref = ref_params(fam, name)
+    binary = fam == 'dstu'
+    mulc = {}
+    for cfg in case['cfgs']:
+        L = common.lib(cfg)
+        lp = lib_params(L, fam, name)
+        if lp != ref and not (binary and lp['G'] is None and {k: v for k, v in lp.items() if k != 'G'} == {k: v for k, v in ref.items() if k != 'G'}):
+            addv(('std-params:%s' % fam, {'cfg': cfg, 'kind': 'params', 'fam': fam, 'name': name},
+                  '%sParamsStd(%s): the library table differs from the standard: %r' % (fam, name, sorted(k for k in ref if ref[k] != lp.get(k)))))
+            continue
+        spec = ('2', ref['poly'], ref['a'], ref['b']) if binary else ('p', ref['p'], ref['a'], ref['b'])
+        c = get_ctx(cfg, spec)
+        E, q, h = c.E, ref['q'], ref['h']
+        if 'pts' not in mulc:
+            mulc['pts'] = std_points(E, ref, binary)
+        G, pts = mulc['pts']
+        def rmul(k, P):
+            if (k, P) not in mulc:
+                mulc[(k, P)] = E.mul(k, P)
+            return mulc[(k, P)]
+        W, n = c.W, c.n
+        nq = (q.bit_length() + 8 * W - 1) // (8 * W)
+        # (a) function table on all ordered pairs of the boundary set
+        In = [None] + pts
+        n0 = calls
+        for op in ('add', 'sub', 'adda', 'suba', 'neg', 'dbl', 'tpl', 'toa', 'froma', 'dbla', 'addaa', 'subaa', 'nega'):
+            if op == 'tpl' and not c.has_tpl:
+                continue
+            shape = OPS[op][1]
+            for alias in ((0, 1, 2, 3) if shape in ('pp', 'pa') else (0,) if shape == 'aa' or op == 'nega' else (0, 1)):
+                A_ = In if shape in ('pp', 'pa', 'p') and not (shape == 'pa' and alias == 3) else pts
+                B_ = (In if shape == 'pp' else pts) if shape in ('pp', 'pa', 'aa') else None
+                if alias == 3:
+                    B_ = A_
+                lps = DIAG_LP if shape == 'pp' and alias != 3 else [(0, 0)] if shape in ('a', 'aa') or (shape == 'pa' and alias == 3) else [(a, 0) for a in range(4)]
+                def exp_row(i, A_=A_, B_=B_, op=op, alias=alias):
+                    if B_ is None:
+                        ks = [(op, A_[i], None)]
+                    elif alias == 3:
+                        ks = [(op, A_[i], A_[i])]
+                    else:
+                        ks = [(op, A_[i], Q) for Q in B_]
+                    for k in ks:
+                        if k not in mulc:
+                            mulc[k] = ref_apply(E, k[0], k[1], k[2])
+                    return [mulc[k] for k in ks]
+                for la, lb in lps:
+                    cnt, mm = run_pairs(c, op, alias, la, lb, A_, B_, exp_row)
+                    calls += cnt
+                    if mm:
+                        addv(pair_violation(c, op, alias, la, lb, A_[mm['i']], B_[mm['j']] if B_ is not None else None, mm))
+        parts['pairs'] = parts.get('pairs', 0) + calls - n0
+        # (b) scalar multiples
+        n0 = calls
+        fil = fint('k/' + name, 3, q - 2)
+        alpha = [0, 1, 2, q - 1, q, q + 1, 2 * q, fil, h * q, q // 2]
+        for m in sorted(set([nq, n + 1] + ([1] if tier == 'thorough' else []))):
+            B = 1 << (8 * W * m)
+            ks = sorted(set([k for k in alpha if k < B] + [B - 1]))
+            if m == 1:
+                ks = [k for k in ks if k < 4] + [B - 1]
+            ex = {}
+            cnt, mm = run_mul(c, 0, pts, ks, m, lambda i, j: rmul(ks[j], pts[i]))
+            calls += cnt
+            if mm:
+                addv(mul_violation(c, 0, pts[mm['i']], ks[mm['j']], m, mm))
+            qs = [k for k in ks if k > 0]
+            cnt, mm = run_mul(c, 1, pts, qs, m, lambda i, j: rmul(qs[j], pts[i]) is None)
+            calls += cnt
+            if mm:
+                addv(mul_violation(c, 1, pts[mm['i']], qs[mm['j']], m, mm))
+        parts['scalars'] = parts.get('scalars', 0) + calls - n0
+        # (c) sums of multiples
+        n0 = calls
+        S = [0, 1, 2, q - 1, q, q + 1, fil]
+        am = AddMul(c)
+        try:
+            prs = [(G, G), (G, E.neg(G)), (G, E.dbl(G)), (E.dbl(G), G)] + ([(G, pts[-1])] if pts[-1] != G else [])
+            tl = []
+            for P1, P2 in prs:
+                for a in S:
+                    for b in S:
+                        tl.append([(P1, a, nq), (P2, b, n + 1 if (a + b) % 2 else nq)])
+            S3 = [1, q - 1, fil]
+            for a in S3:
+                for b in S3:
+                    for d in S3 + [0]:
+                        tl.append([(G, a, nq), (E.neg(G), b, nq), (E.dbl(G), d, n + 1)])
+            for P in pts[:3]:
+                for a in S:
+                    tl.append([(P, a, n + 1)])
+            for terms in tl:
+                want = None
+                for P, k, m in terms:
+                    want = E.add(want, rmul(k, P))
+                got = am.call(terms)
+                calls += 1
+                if got != want:
+                    addv(addmul_violation(c, terms, got, want))
+        finally:
+            am.close()
+        parts['addmul'] = parts.get('addmul', 0) + calls - n0
+        # (d) on-curve predicate, SWU
+        n0 = calls
+        for rx, ry in ison_points(c, pts):
+            want = ison_expected(c, rx, ry)
+            with vf.Arena(L) as T:
+                got = ison_call(c, T, rx, ry)
+            calls += 1
+            if got != want:
+                addv(ison_violation(c, rx, ry, got, want))
+        if not binary and E.p % 4 == 3 and E.a and E.b:
+            p = E.p
+            for s in [0, 1, 2, p - 1, p - 2, (p - 1) // 2] + [fint('swu/%s/%d' % (name, i), 3, p - 3) for i in range(3)]:
+                if swu_admissible(E, s):
+                    addv(swu_check(c, s)); calls += 1
+        parts['ison_swu'] = parts.get('ison_swu', 0) + calls - n0
+    return {'calls': calls, 'viol': viol, 'parts': parts, 'npts': len(mulc.get('pts', (0, []))[1])}
